@@ -227,6 +227,41 @@ func runCoSi(t *core.Tape, tier string, info *core.RunInfo) *core.Violation {
 					return viol("cosi", "cosi/verifies-under-other-mask", "collective signature verifies with participant bit %d flipped", k)
 				}
 			}
+			// padding bits of the last mask byte are not participants: a signature whose mask
+			// has them set must be judged by its real participation (added after seed C09c:
+			// CountEnabled counted the padding bits and ThresholdPolicy/CompletePolicy accepted
+			// 2 of 5 signers)
+			if n%8 != 0 && t.Bool("byz.padding", 600) {
+				pad := kit.CopyBytes(sig)
+				last := len(pad) - 1
+				bitsSet := 0
+				for k := n % 8; k < 8; k++ {
+					if t.Bool("byz.padding", 600) {
+						pad[last] |= 1 << k
+						bitsSet++
+					}
+				}
+				if bitsSet == 0 {
+					pad[last] |= 0x80
+				}
+				info.ByzFired("mask-padding-bits")
+				for k := 0; k <= n; k++ {
+					var verr error
+					if pn := core.Guard(func() { verr = cosi.Verify(g, pubs, msg, pad, cosi.NewThresholdPolicy(k)) }); pn != nil {
+						return viol("totality", "cosi/verify-panic", "cosi.Verify panicked on a mask with padding bits: %v | %s", pn, core.LastStack())
+					}
+					if verr == nil && enabled < k {
+						return viol("cosi", "cosi/verify-accepts/padding-bits-counted", "mask byte %02x (n=%d): Verify accepted under threshold %d with %d real participants", pad[last], n, k, enabled)
+					}
+				}
+				var verr error
+				if pn := core.Guard(func() { verr = cosi.Verify(g, pubs, msg, pad, cosi.CompletePolicy{}) }); pn != nil {
+					return viol("totality", "cosi/verify-panic", "cosi.Verify panicked on a mask with padding bits: %v | %s", pn, core.LastStack())
+				}
+				if verr == nil && enabled < n {
+					return viol("cosi", "cosi/verify-accepts/padding-bits-counted", "mask byte %02x (n=%d): Verify accepted under the complete policy with %d real participants", pad[last], n, enabled)
+				}
+			}
 			info.Probe("cosi-signature-verified")
 		}
 		return nil
